@@ -177,6 +177,13 @@ func (e *Env) modelDecodeOne(l *facts.Level, rule string) *decodeOneModel {
 			metricFields[lv.VerField] = true
 		}
 	}
+	namesFields := map[types.Object]bool{}
+	for lv := l; lv != nil; lv = lv.Lower {
+		namesFields[lv.Names] = true
+		if lv.Embedded != nil {
+			namesFields[lv.Embedded] = true
+		}
+	}
 	levelNames := map[string]bool{}
 	for _, n := range l.Spec.Names() {
 		levelNames[n] = true
@@ -210,9 +217,17 @@ func (e *Env) modelDecodeOne(l *facts.Level, rule string) *decodeOneModel {
 				bad(lf, "no-normalisation", "unexpected call on the token path: "+clip(ef.Val.Pretty()))
 			}
 		}
+		// writes that matter here: metric fields, Ver and the names sets of the object; bookkeeping fields the
+		// specification does not know (a cache reset, a counter) are the business of C14/C15's write rules
 		var writes []ir.Effect
 		for _, ef := range lf.Effects {
-			if ef.Kind != "call" {
+			switch ef.Kind {
+			case "store":
+				if ef.Addr.Op == ir.OField && !metricFields[ef.Addr.Obj] && !namesFields[ef.Addr.Obj] {
+					continue
+				}
+				writes = append(writes, ef)
+			case "map-update":
 				writes = append(writes, ef)
 			}
 		}
